@@ -7,7 +7,7 @@ from .. import common, families, langs, modelgen, sandbox
 from ..refs import inherit, sem
 
 PROP = 'C06'
-DEF_VALUES = [None, -0.1, 0, 0.5, 1, 1.1, 2]
+DEF_VALUES = [None, -0.1, 0, 0.5, 1, 1.1, 2, float('inf'), float('-inf'), float('nan')]
 
 
 FORMS = ['1', '0..1', '*', '1..*', '0..*', '2', '2..3']
@@ -94,9 +94,9 @@ def check_classes(name, sp, fx, stats):
                     except Exception:  # noqa: BLE001
                         acc = False
                     if acc != ok:
-                        V(f'defense_value_{"accepted" if acc else "rejected"}:{how}',
+                        V(f'defense_value_{"accepted" if acc else "rejected"}:{how}' + (':nan' if v != v else ''),
                           f'{t}.{d} = {v} was {"accepted" if acc else "rejected"}', extra={'asset': t, 'defense': d, 'value': v})
-                    elif acc and val != float(v):
+                    elif acc and val != float(v):   # (NaN never gets here: it is not inside [0,1])
                         V('defense_value_not_stored', f'{t}.{d} = {v} reads back {val}')
     # association classes
     names = [x['name'] for x in sp['associations']]
@@ -312,7 +312,7 @@ def run(tier, seed):
     res = common.Result(PROP, tier, seed, 'exploration')
     res.rule = ('languages: CLS family (inherited defenses with every TTC form, all 7 multiplicity forms on either side, same-named '
                 'associations over different type pairs incl. subtypes), OPS, OPS2 (+ coreLang slice in thorough); for each: every '
-                'asset class and defense property with default, every defense value in {-0.1,0,0.5,1,1.1,2} by constructor and by '
+                'asset class and defense property with default, every defense value in {-0.1,0,0.5,1,1.1,2,inf,-inf,nan} by constructor and by '
                 'assignment, every association class via its signature, and per association class every construction attempt '
                 'drawn from {0..max+1 members, every type incl. subtype/supertype/sibling/unrelated, repeated asset, duplicate link}; '
                 'accepted iff allowed by the language; rejected attempts leave the model unchanged')
